@@ -1,11 +1,15 @@
 #!/bin/sh
 # usage: tools/try_seed.sh <seed dir containing patch.diff> <property> [tier]
 # Applies a seeded change to /repo, runs the check, and ALWAYS reverts /repo's working tree.
+# The property's evidence file is saved and restored: evidence committed in /verif must come from the unchanged tree.
 set -u
 d="$1"; p="$2"; t="${3:-quick}"
 if ! git -C /repo diff --quiet; then echo "/repo has uncommitted changes; refusing"; exit 2; fi
 git -C /repo apply "$d/patch.diff" || { echo "patch does not apply"; exit 2; }
+cp /verif/evidence/$p.json /tmp/evidence-$p.bak 2>/dev/null
 cd /verif && ./check "$p" "$t"; rc=$?
 git -C /repo checkout -- . && git -C /repo clean -fdq
-echo "check exit=$rc (1 = caught)"
+mkdir -p /tmp/seedreplay && rm -f /tmp/seedreplay/$p-* && mv /verif/evidence/replay/$p-*.json /tmp/seedreplay/ 2>/dev/null
+[ -f /tmp/evidence-$p.bak ] && mv /tmp/evidence-$p.bak /verif/evidence/$p.json
+echo "check exit=$rc (1 = caught); replay files moved to /tmp/seedreplay/"
 exit 0
